@@ -263,6 +263,18 @@ def run(ctx):
             if t != "E":
                 ctx.violation("corr:prefix", dict(schema=raw, bytes=data.hex(), cut=k), impl=t, model="E (a proper prefix must raise)",
                               signature="C03:prefix:returns-value-on-truncated-input", found_input=True)
+            # the same truncation when the value is SKIPPED (trailing writer-only field): must raise too
+            w2 = {"type": "record", "name": "SkipT", "fields": [{"name": "b", "type": "long"}, {"name": "a", "type": raw}]}
+            r2 = {"type": "record", "name": "SkipT", "fields": [{"name": "b", "type": "long"}]}
+            try:
+                res = CC.impl_read(w2, b"\x0a" + p, r2)
+            except Exception as e:
+                res = ("raised", type(e).__name__, None)
+            ctx.count("corr:prefix-skip", None, nontrivial=False)
+            if res[0] != "raised":
+                ctx.violation("corr:prefix-skip", dict(writer_schema=w2, reader_schema=r2, bytes=(b"\x0a" + data).hex(), cut=k + 1), impl=repr(res[:2])[:200],
+                              model="E (a value cut short must raise when it is skipped as well)",
+                              signature="C03:prefix:skip-accepts-truncated-input", found_input=True)
             if rng.random() < 0.02:
                 sample_exprs.append("run_read %s %s %s %s" % (G.ropts(), G.env_to_coq(named), G.schema_to_coq(parsed), G.hx(p)))
                 sample_meta.append((raw, data, k))
@@ -283,6 +295,11 @@ def run(ctx):
 def replay(ctx, rep):
     import fastavro
     c = rep["case"]
+    if "writer_schema" in c and "cut" in c:
+        full = bytes.fromhex(c["bytes"])[:c["cut"]]
+        res = CC.impl_read(c["writer_schema"], full, c["reader_schema"])
+        print("implementation:", res, "expected: raises")
+        return res[0] == "raised"
     if "writer_schema" in c:
         full = bytes.fromhex(c["bytes"])
         res = CC.impl_read(c["writer_schema"], full, c["reader_schema"])
